@@ -134,26 +134,26 @@ check("C18", "exploration", "gsched",
 
 # coverage added after the third and fourth wave of seeded defects (DESIGN.md section 0)
 ADDENDA = {
-    "C01": " Seed streams are additionally cut at every offset (1 cut; thorough 2) and read with 9 read()/readline() programs, always judged by the same whole-stream reference.",
-    "C02": " Real sync/gthread/gevent/eventlet servers additionally run 8 connection scripts (request sequences ending in file_wrapper / multi-megabyte responses with a slow reader, responses slower than the keep-alive time, HTTP/1.0 keep-alive), read back by the same strict reader. Further real scripts: TCP client with a 4 KB receive buffer and odd read sizes, a client idling past the keep-alive time, file_wrapper over a pipe.",
-    "C03": " The simulated heartbeat file delegates its open/closed life cycle to the real WorkerTmp. Real boot-failure cells (raising post_fork / post_worker_init hook, failing application import, with and without preload) on three worker classes.",
-    "C04": " Reload histories that change graceful_timeout (the arbiter's own configuration in force is the bound) and real cells with workers older than graceful_timeout are included. Real cells with a raising worker_exit hook in a sibling worker and with an application that starts a helper process at import.",
-    "C05": " Also: IPv6 peers (4-tuples), a client that stays connected and silent (the async keep-alive timer fires), and clients that never read a multi-megabyte echoed error reply (limit_request_line=0). Also format characters in echoed text, ECONNABORTED / EAGAIN from accept() in the real ThreadWorker.run loop, and a raising pre_request hook.",
-    "C08": " Also: a PROXY line combined with proxy-asserting headers x forwarded_allow_ips naming the declared address / the peer; field names with other token characters; the cells re-run in fresh interpreters with FORWARDED_ALLOW_IPS set in the environment.",
-    "C09": " Also: late start_response(.., exc_info) after a zero-byte write / yield with a payload that would read as a second response. Also applications raising 7 kinds of exception after the head was sent.",
-    "C10": " Also: a raw_env variable set, changed by a first reload and dropped by a second one. Also a raw_env variable the master itself dropped, and the application named by wsgi_app changing across the reload.",
+    "C01": " Seed streams are additionally cut at every offset (1 cut; thorough 2) and read with 9 read()/readline() programs, always judged by the same whole-stream reference. A PROXY line anywhere after the first request must be refused; bodies left unread by the application (5 methods x 3 framings); every truncation of the body-carrying seeds (a cut-off chunked body must not read as complete).",
+    "C02": " Real sync/gthread/gevent/eventlet servers additionally run 8 connection scripts (request sequences ending in file_wrapper / multi-megabyte responses with a slow reader, responses slower than the keep-alive time, HTTP/1.0 keep-alive), read back by the same strict reader. Further real scripts: TCP client with a 4 KB receive buffer and odd read sizes, a client idling past the keep-alive time, file_wrapper over a pipe. Delivery write()+file_wrapper in the program product.",
+    "C03": " The simulated heartbeat file delegates its open/closed life cycle to the real WorkerTmp. Real boot-failure cells (raising post_fork / post_worker_init hook, failing application import, with and without preload) on three worker classes. Simulated heartbeats are up to 0.4 s old; with timeout=0 any SIGABRT is a violation.",
+    "C04": " Reload histories that change graceful_timeout (the arbiter's own configuration in force is the bound) and real cells with workers older than graceful_timeout are included. Real cells with a raising worker_exit hook in a sibling worker and with an application that starts a helper process at import. Stop signals delivered together with the old master's exit; master pids of 1 and 7 digits.",
+    "C05": " Also: IPv6 peers (4-tuples), a client that stays connected and silent (the async keep-alive timer fires), and clients that never read a multi-megabyte echoed error reply (limit_request_line=0). Also format characters in echoed text, ECONNABORTED / EAGAIN from accept() in the real ThreadWorker.run loop, and a raising pre_request hook. An application that answers before reading a malformed body (one status line per call); real TLS listeners against clients that are not TLS clients.",
+    "C08": " Also: a PROXY line combined with proxy-asserting headers x forwarded_allow_ips naming the declared address / the peer; field names with other token characters; the cells re-run in fresh interpreters with FORWARDED_ALLOW_IPS set in the environment. FORWARDED_ALLOW_IPS defined but empty.",
+    "C09": " Also: late start_response(.., exc_info) after a zero-byte write / yield with a payload that would read as a second response. Also applications raising 7 kinds of exception after the head was sent. Zero Content-Length spellings with an empty body; statuses passed together with exc_info.",
+    "C10": " Also: a raw_env variable set, changed by a first reload and dropped by a second one. Also a raw_env variable the master itself dropped, and the application named by wsgi_app changing across the reload. The same bind address respelled by the reloaded configuration.",
     "C11": " The worker's wait bound is taken from the real Arbiter.setup()/spawn_worker(); clients pending on several listeners at once; a master woken every 0.3-0.9 s (USR1, crash-looping sibling, TTIN/TTOU) while a worker hangs; gaps are measured from worker creation. The wall clock is a separate, steppable clock in the simulated kernel (clock-step cells); the heartbeat round trip is checked against both clocks.",
     "C12": " 'What follows' includes 8.7 KB of pipelined requests arriving in the same read as the head under test. Segmentation 'every CRLF cut in two'; folded fields under permit_obsolete_folding count once.",
-    "C14": " Also: three listeners (tcp, tcp, unix) handed over through upgrade / rollback / chained upgrade, and the exec environment must carry everything the old master was started with. The old master's pool size is followed through WINCH / HUP.",
-    "C15": " A forwarder header (PATH_INFO) is one of the field items, in every order with the underscore-named items.",
-    "C16": " Also: wrong-typed values per validator, case / underscore variants of every setting name as plain file variables, wsgi_app named by the file, six spellings of -c (absolute, relative, file: prefix) x four directory names, reloads after the configuration moved the working directory. Hook settings are called with every accepted arity and must receive the documented arguments; None from the file over a framework default.",
-    "C17": " Foreign file contents include pids that are prefixes of one another (1, 11, 110); the arbiter's halt call site is judged too (the pid file may only go when no worker is left). os.open / path normalisation in the simulated file system, reload to alias spellings of the pid file, a real recycling cell with a raising worker_exit hook.",
-    "C19": " Includes a delivery where a late start_response(.., exc_info) is refused after the first write. Clients that vanish before / while the response is written; every way of switching access logging on or off, with and without statsd.",
-    "C20": " The credential grid is crossed with the identity the master starts with (root/0, configured gid preset, effective gid preset, own supplementary groups) and records the arguments of os.initgroups; a USR2 history with the identity configured through GUNICORN_CMD_ARGS is included. Real cells with CAP_SETUID/CAP_SETGID dropped; expected ids come from the account database; accounts with uid != gid.",
+    "C14": " Also: three listeners (tcp, tcp, unix) handed over through upgrade / rollback / chained upgrade, and the exec environment must carry everything the old master was started with. The old master's pool size is followed through WINCH / HUP. Events combining the parent's exit with TERM / USR2 / QUIT in one instant.",
+    "C15": " A forwarder header (PATH_INFO) is one of the field items, in every order with the underscore-named items. The Expect field is a field item like the others.",
+    "C16": " Also: wrong-typed values per validator, case / underscore variants of every setting name as plain file variables, wsgi_app named by the file, six spellings of -c (absolute, relative, file: prefix) x four directory names, reloads after the configuration moved the working directory. Hook settings are called with every accepted arity and must receive the documented arguments; None from the file over a framework default. GUNICORN_CMD_ARGS given verbatim (# ; $ quotes inside words); relative --chdir against a file that sets chdir.",
+    "C17": " Foreign file contents include pids that are prefixes of one another (1, 11, 110); the arbiter's halt call site is judged too (the pid file may only go when no worker is left). os.open / path normalisation in the simulated file system, reload to alias spellings of the pid file, a real recycling cell with a raising worker_exit hook. Undecodable file contents, bare relative names with /tmp on another file system (EXDEV, shutil.move), subreaper promotion.",
+    "C19": " Includes a delivery where a late start_response(.., exc_info) is refused after the first write. Clients that vanish before / while the response is written; every way of switching access logging on or off, with and without statsd. Credentials that are not base64; delivery write()+file_wrapper.",
+    "C20": " The credential grid is crossed with the identity the master starts with (root/0, configured gid preset, effective gid preset, own supplementary groups) and records the arguments of os.initgroups; a USR2 history with the identity configured through GUNICORN_CMD_ARGS is included. Real cells with CAP_SETUID/CAP_SETGID dropped; expected ids come from the account database; accounts with uid != gid. Group ids above 2**31; a unix socket created by a reload.",
     "C06": " The kind of rejection is part of the observation; unterminated over-limit lines; a worker-level part cuts pipelined streams at every offset through the real keep-alive loops.",
-    "C07": " A worker-level part (application consuming none / some / all of a body whose rest arrives later) and truncated chunked bodies for every read program.",
-    "C13": " Reaper closes are compared with the deadline stamped when the connection was handed back to the poller (a request longer than the keep-alive time is in the configuration list); accept() may fail with ECONNABORTED.",
-    "C18": " Real loads with a raising worker_exit hook, an application error on the limit-reaching request, and a slow request on a second listener.",
+    "C07": " A worker-level part (application consuming none / some / all of a body whose rest arrives later) and truncated chunked bodies for every read program. Bodies with a bare CR; 2.2 MB bodies left unread; GET / HEAD bodies; interleaved connections cut inside a chunk-size line.",
+    "C13": " Reaper closes are compared with the deadline stamped when the connection was handed back to the poller (a request longer than the keep-alive time is in the configuration list); accept() may fail with ECONNABORTED. With worker_connections == threads no connection may be parked idle.",
+    "C18": " Real loads with a raising worker_exit hook, an application error on the limit-reaching request, and a slow request on a second listener. A connection accepted two main-loop rounds after the limit was reached is a violation.",
 }
 for pid, extra in ADDENDA.items():
     CHECKS[pid]["text"] += extra
